@@ -38,6 +38,7 @@ type c10scn struct {
 	behs      []vbeh // per frame of the inbound stream, frame 0 = first message
 	ops       []c10op
 	tcp       bool
+	manual    bool // the peer reads from the client only at 'r' ops (no background drain): KeepAliveAcks pile up
 }
 
 var statusOK = []byte{0x01, 0x1f, 0x00, 0x08, 0x00, 0x00, 0x00, 0x00}
@@ -229,6 +230,76 @@ func c10Scenarios(seed uint64, thorough bool) []c10scn {
 		}
 		add(v2)
 	}
+	// handlers that take the message the way the device service's handlers do — msg.UnmarshalTo(&ROAccessReport{}) /
+	// (&ReaderEventNotification{}) / msg.data() — on unsolicited and on awaited+handled frames whose header declares
+	// limit-1 … 2^32-1 while the peer sends 32 bytes and hangs up (and, up to limit+1, the whole payload)
+	{
+		greet := wraw(c10frame{1, 63, 0, renPayload(0)}.bytes())
+		decl := []uint32{uint32(limit - 1), uint32(limit), uint32(limit + 1), 1 << 28, 1<<32 - 1 - 10}
+		for mode := 0; mode < 4; mode++ {
+			for di, p := range decl {
+				for _, kind := range []byte{'d', 'u'} {
+					for _, full := range []bool{false, true} {
+						if full && (p > uint32(limit+1) || (di+int(kind))%2 == 0) {
+							continue
+						}
+						sc := c10scn{ver: 1, behs: []vbeh{{mode: kind}, {mode: kind}, {k: 0}}}
+						typ, id := 61, uint32(500)
+						ops := []c10op{greet}
+						switch mode {
+						case 0:
+							sc.handlers = []int{61}
+						case 1:
+							sc.handlers, typ = []int{63}, 63
+						case 2:
+							sc.dflt = true
+						case 3:
+							sc.handlers, typ, id = []int{12}, 12, 0
+							ops = append(ops, c10op{kind: 'c', typ: 2}, c10op{kind: 'r'})
+						}
+						fill := rng.intn(256)
+						ops = append(ops, w(func(s *vstream) {
+							if full {
+								s.frame(1, typ, id, int(p), fill)
+								s.frame(1, 62, 7, 0, 0)
+							} else {
+								s.hex(vframe{ver: 1, typ: typ, id: id, lieLen: p + 10}.bytes())
+								s.pat(32, fill)
+							}
+						}))
+						sc.name = fmt.Sprintf("hv:mode%d:decl%d:%c:full=%v", mode, p, kind, full)
+						sc.ops = append(ops, c10op{kind: 'x'})
+						add(sc)
+					}
+				}
+			}
+		}
+	}
+	// flood then hang-up: KeepAlives (alone, or interleaved with reports) while the peer reads nothing, then the peer
+	// closes: the ack queue fills, the write loop is stuck in its write, and Connect must still return an error
+	for _, ver := range []int{1, 2} {
+		for _, k := range []int{1, 5, 6, 7, 8, 20} {
+			for _, mixed := range []bool{false, true} {
+				if mixed && (k == 1 || k == 5) {
+					continue
+				}
+				ops := []c10op{wraw(c10frame{1, 63, 0, renPayload(0)}.bytes())}
+				if ver == 2 {
+					ops = append(ops, c10op{kind: 'r'}, wraw(c10frame{2, 56, 0, append([]byte{1, 2}, statusOK...)}.bytes()),
+						c10op{kind: 'r'}, wraw(c10frame{2, 57, 1, statusPayload(0)}.bytes()))
+				}
+				for j := 0; j < k; j++ {
+					ops = append(ops, wraw(c10frame{ver, 62, uint32(7000 + j), nil}.bytes()))
+					if mixed && j%2 == 1 {
+						ops = append(ops, wraw(c10frame{ver, 61, uint32(8000 + j), []byte{0x00, 0xf0, 0x00, 0x04}}.bytes()))
+					}
+				}
+				sc := mk(fmt.Sprintf("flood:v%d:k%d:mixed=%v", ver, k, mixed), ver, ops)
+				sc.manual = true
+				add(sc)
+			}
+		}
+	}
 	// a local Shutdown in progress: the wait for the local close after CloseConnectionResponse + EOF is legitimate here
 	gr := wraw(c10frame{1, 63, 0, renPayload(0)}.bytes())
 	sd := func(name string, reply c10op) {
@@ -294,7 +365,9 @@ func (s c10scn) run() (req, obs string) {
 	}()
 	peer := &vpeer{c: b}
 	got := make(chan vframe, 64)
-	go vdrain(peer, got)
+	if !s.manual {
+		go vdrain(peer, got)
+	}
 
 	type caller struct {
 		id       string
@@ -400,6 +473,19 @@ func (s c10scn) run() (req, obs string) {
 				cl.res <- errClass(c.Shutdown(ctx))
 			}()
 		case 'r':
+			if s.manual { // read one non-ack frame directly, with a deadline
+				dl := time.Now().Add(rwait)
+				for time.Now().Before(dl) {
+					f, err := peer.recv(time.Until(dl))
+					if err != nil {
+						break
+					}
+					if f.typ != int(MsgKeepAliveAck) {
+						got <- f
+						break
+					}
+				}
+			}
 			select {
 			case f, ok := <-got:
 				if ok && pending != nil && pending.shutdown {
@@ -411,7 +497,7 @@ func (s c10scn) run() (req, obs string) {
 					regs = append(regs, fmt.Sprintf("%d@%d", f.id, pos))
 				}
 			case <-connDone:
-			case <-time.After(rwait):
+			case <-time.After(map[bool]time.Duration{false: rwait, true: time.Millisecond}[s.manual]):
 			}
 			if pending != nil && pending.id == "" {
 				nfake++
